@@ -153,6 +153,9 @@ type Config struct {
 	// random points the running task is demoted below everybody. Finds ordering bugs of small depth (one task running
 	// far ahead of another) that a random walk over ready tasks reaches only with tiny probability.
 	PCT bool
+	// ManualSched (with PCT): priorities and first gaps are set by the harness (SetSched), nothing is drawn for them --
+	// used by systematic enumerations of "task B runs entirely inside the k-th statement boundary of task A".
+	ManualSched bool
 	// generation biases, 0..65536, per kind (probability of a non-boring value)
 	Bias [NumKinds]uint32
 }
@@ -460,7 +463,9 @@ func (w *World) newTask(name, site string, sut bool) *Task {
 		t.Host = w.cur.Host
 		t.parent = w.cur
 	}
-	if w.cfg.PCT {
+	if w.cfg.PCT && w.cfg.ManualSched {
+		t.prio = 1 << 15
+	} else if w.cfg.PCT {
 		if t.ID == 0 {
 			t.prio = 1 << 15
 			w.evPrio = int64(1 + Choose(1<<16, KPrio))
@@ -973,13 +978,17 @@ func Block(obj Waitable, arg int, reason string, deadline int64) bool {
 //
 //go:norace
 func startGap(w *World, t *Task) {
-	if t.ID != 0 {
+	if t.ID != 0 && !w.cfg.ManualSched {
 		w.afterResume(t)
 	}
 }
 
 //go:norace
 func (w *World) afterResume(t *Task) {
+	if w.cfg.ManualSched {
+		t.gap = 0
+		return
+	}
 	t.gap = Choose(33, KGap)
 }
 
@@ -1118,6 +1127,12 @@ func WaitState(c *StateCond, deadline int64) bool {
 	}
 	return Block(c, 0, "harness: waiting for SUT state", deadline)
 }
+
+// SetSched fixes a task's priority and the number of Points after which it is demoted (0 = never); call it right
+// after spawning, before the task has run (ManualSched worlds only).
+//
+//go:norace
+func SetSched(t *Task, prio int64, gap int) { t.prio, t.gap = prio, gap }
 
 // CountLiveSUT counts SUT tasks that have not exited and whose creation site contains sub.
 //
